@@ -21,8 +21,11 @@ class TlcError(Exception):
     pass
 
 
-def tlc_cmd(cfg, module, workers=1, extra=(), metadir=None, heap='2g'):
-    cmd = ['java', '-XX:+UseParallelGC', '-Xmx' + heap, '-cp', TLC_CP, 'tlc2.TLC',
+def tlc_cmd(cfg, module, workers=1, extra=(), metadir=None, heap='2g', short=False):
+    # short-lived single-worker JVMs (trace validation): serial GC + C1 only, otherwise 16
+    # JVMs fight over GC / JIT threads (measured: 3.6 s vs 6.6 s for one batch, worse in parallel)
+    jvm = ['-XX:+UseSerialGC', '-XX:TieredStopAtLevel=1'] if short else ['-XX:+UseParallelGC']
+    cmd = ['java'] + jvm + ['-Xss16m', '-Xmx' + heap, '-cp', TLC_CP, 'tlc2.TLC',
            '-workers', str(workers), '-noGenerateSpecTE', '-config', cfg]
     if metadir:
         cmd += ['-metadir', metadir]
@@ -52,7 +55,7 @@ def validate_batch(traces, cfg='FBTrace.cfg', module='FBTrace.tla', timeout=1800
             for t in traces:
                 f.write(json.dumps(t, separators=(',', ':')) + '\n')
         env = dict(os.environ, TRACE_FILE=tf)
-        cmd = tlc_cmd(cfg, module, 1, metadir=os.path.join(workdir, 'meta'))
+        cmd = tlc_cmd(cfg, module, 1, metadir=os.path.join(workdir, 'meta'), short=True)
         p = subprocess.run(cmd, cwd=SPEC_DIR, env=env, stdout=subprocess.PIPE, stderr=subprocess.STDOUT,
                            timeout=timeout, text=True)
         out = p.stdout
